@@ -276,13 +276,32 @@ pub fn generate(seed: u64) -> Config {
     }
 
     // queries
-    let mut queries = Vec::new();
-    for (c, _) in &entries {
-        queries.push(gen_query(&mut rng, c.clone(), per_word));
-        if rng.chance(1, 2) {
-            queries.push(gen_query(&mut rng, c.clone(), per_word));
+    // Queries are generated as blocks that stay adjacent after shuffling, so that hidden state
+    // carried from one lookup to the next (a one-entry cache, a lazily built inverse) meets the
+    // related inputs most likely to collide with it.
+    let mut blocks: Vec<Vec<Query>> = Vec::new();
+    let zero = alpha[if codec == "dna" { 0 } else { 15 }] as char; // the all-zero-bits symbol
+    for (c, a) in &entries {
+        let mut blk = vec![gen_query(&mut rng, c.clone(), per_word)];
+        for _ in 0..rng.below(3) {
+            match rng.below(6) {
+                0 => blk.push(gen_query(&mut rng, format!("{c}{zero}"), per_word)),
+                1 => blk.push(gen_query(&mut rng, c[..c.len() - 1].to_string(), per_word)),
+                2 => blk.push(gen_query(&mut rng, format!("{zero}{c}"), per_word)),
+                3 => blk.push(Query::Codon { amino: a.clone() }),
+                4 => {
+                    let other = &entries[rng.below(entries.len())];
+                    blk.push(gen_query(&mut rng, other.0.clone(), per_word));
+                }
+                _ => blk.push(gen_query(&mut rng, c.clone(), per_word)),
+            }
         }
+        if rng.chance(1, 3) {
+            blk.insert(0, Query::Codon { amino: a.clone() });
+        }
+        blocks.push(blk);
     }
+    let mut queries: Vec<Query> = Vec::new();
     let lens: BTreeSet<usize> = if mixed { (1..=max_len).collect() } else { [base_len].into_iter().collect() };
     for len in &lens {
         let total = alpha.len().pow(*len as u32);
@@ -323,7 +342,9 @@ pub fn generate(seed: u64) -> Config {
     for a in AMINO_LETTERS {
         queries.push(Query::Codon { amino: (*a as char).to_string() });
     }
-    rng.shuffle(&mut queries);
+    blocks.extend(queries.into_iter().map(|q| vec![q]));
+    rng.shuffle(&mut blocks);
+    let queries: Vec<Query> = blocks.into_iter().flatten().collect();
 
     Config { run_seed: seed, codec: codec.to_string(), entries, builds, queries }
 }
@@ -878,6 +899,8 @@ pub struct BatchOut {
     pub entropy_values: u64,
     pub violating_runs: u64,
     pub violations: Vec<serde_json::Value>,
+    /// runs per violation class (a run counts once per class)
+    pub violation_classes: BTreeMap<String, u64>,
     pub nontrivial_runs: u64,
     pub distinct_nontrivial_local: u64,
     pub distinct_order_pairs_local: u64,
@@ -940,6 +963,10 @@ pub fn batch(verif_seed: u64, from: u64, to: u64, hashes_path: Option<&str>) -> 
             order_pairs.insert(d.0);
         }
         if r.violation_count > 0 {
+            let classes: BTreeSet<&str> = r.violations.iter().map(|v| v.class.as_str()).collect();
+            for c in classes {
+                *out.violation_classes.entry(c.to_string()).or_insert(0) += 1;
+            }
             out.violating_runs += 1;
             if out.violations.len() < 3 {
                 out.violations.push(serde_json::json!({
